@@ -64,11 +64,30 @@ func Configs(quick bool) []NamedConfig {
 	if quick && len(out) > 1 {
 		out = out[:1]
 	}
+	out = append(fiveNodeConfigs(quick), out...) // the cheap configuration first: a deadline must not cut it
+	return out
+}
+
+// fiveNodeConfigs: n=5 equal power has total power 5 = 3k+2, the residue where an off-by-one
+// in the +2/3 threshold shows (4 of 5 needed; two sets of 3 intersect in one validator only).
+// The Byzantine node is placed where it leads round 0, so its equivocation is explored at depth 1.
+func fiveNodeConfigs(quick bool) []NamedConfig {
+	var out []NamedConfig
+	base := Config{Powers: []uint64{1, 1, 1, 1, 1}, Byz: 0, BaseRH: 2, Timeouts: eqTimeouts(10)}
+	probe := New(base)
+	for rh := uint64(2); rh <= 12; rh++ {
+		c := base
+		c.BaseRH, c.Byz = rh, probe.PredictLeader(rh, 0)
+		out = append(out, NamedConfig{Name: fmt.Sprintf("n5-equal-byz%d-rh%d", c.Byz, rh), Cfg: c})
+		if quick {
+			break
+		}
+	}
 	return out
 }
 
 func ConfigByName(name string) (NamedConfig, bool) {
-	for _, c := range append(allConfigs(), NegativeControl()) {
+	for _, c := range append(append(allConfigs(), fiveNodeConfigs(false)...), NegativeControl()) {
 		if c.Name == name {
 			return c, true
 		}
@@ -154,6 +173,12 @@ func Main(id string) {
 		d := depth
 		if nc.Negative {
 			d = 1 // the Byzantine node leads round 0 of the control's root height: one round suffices
+		}
+		if len(nc.Cfg.Powers) == 5 && !nc.Negative && d > 2 {
+			d = 2 // the five-node committee is there for the threshold residue, not for depth
+			if !r.Quick() {
+				d = 3
+			}
 		}
 		audit := 2
 		if !r.Quick() {
